@@ -92,6 +92,19 @@ FIXED = [
     ("C16", "C16/nested-archive-index-read-from-working-directory", "ddeba46",
      "nested archive + outer member '.cache.pygopherd.zip3.inner.zip': shelve.open() of that relative path unpickled a "
      "dbm file from the server's working directory and served a listing from it (also C01)"),
+    ("C03", "C03/malformed:gopher-th-field-is-not", "e9049bf",
+     "a TAB inside an abstract line or display name became an extra field of the Gopher menu line"),
+    ("C17", "C17/content-text-keyword", "25933b9",
+     "tal:content/replace=\"text expr\": the keyword test looked at the wrong word, element emptied (D19)"),
+    ("C17", "C17/exists-nocall-alternation-first-path-unstripped", "c174ad8",
+     "exists:a | b / nocall:a | b with a blank before the bar: first alternative looked up unstripped, never found"),
+    ("C17", "C17/exists-alternation-later-path-truthiness", "3aa44a5",
+     "exists:missing|z with z existing but false (0, nothing, empty) was false"),
+    ("C17", "C17/exists-on-repeat-variable-realvalue", "60683bc",
+     "exists:repeat/x / nocall:repeat/x inside the loop raised KeyError('realValue'), expansion aborted"),
+    ("C18", "C18/passthrough-script-style-content-escaped", "68d60d0",
+     "TAL-free document with < & inside <script>/<style>: content HTML-escaped on every expansion (not equivalent, "
+     "not a fixed point)"),
 ]
 
 KNOWN = [
